@@ -69,6 +69,12 @@ func (f Fault) String() string {
 	if f.Kind == "none" {
 		return "complete"
 	}
+	if f.Kind == "stop" {
+		if f.K == 0 {
+			return "stop-after:begin-marker"
+		}
+		return fmt.Sprintf("stop-after:%s:%d", f.Name, f.K)
+	}
 	return fmt.Sprintf("%s-before:%s:%d", f.Kind, f.Name, f.K)
 }
 
@@ -128,6 +134,9 @@ func (e *env) runOnce(sc Scenario, f Fault, when int) (res *RunResult, err error
 	}
 	res = &RunResult{dirs: []string{root}}
 	sp := &Spec{Sc: sc, Root: root, URL: e.url, RawURL: e.rawURL, Signet: e.signet}
+	if sc.overlap() != "" {
+		sp.Writer = "A"
+	}
 	if sc.Tmp == "other" {
 		sp.Other = filepath.Join(e.other, fmt.Sprintf("o%d", n))
 		if err := os.Mkdir(sp.Other, 0o755); err != nil {
@@ -207,6 +216,12 @@ func site(sc Scenario) string {
 	if sc.srvMode() != "" {
 		s += "/interrupted-download"
 	}
+	if sc.damage() != "" {
+		s += "/damaged-archive"
+	}
+	if sc.overlap() != "" {
+		s += "/overlapping-writers"
+	}
 	if sc.has("signed") {
 		s += "(signed)"
 	}
@@ -222,10 +237,12 @@ type FaultPoint struct {
 }
 
 type scenarioResult struct {
-	sc      Scenario
-	points  []FaultPoint
-	classes map[string]bool
-	mu      sync.Mutex
+	sc     Scenario
+	points []FaultPoint
+	// beginWhen: the begin marker is the beginWhen-th faccessat of the operation's thread
+	beginWhen int
+	classes   map[string]bool
+	mu        sync.Mutex
 }
 
 func roots(sp *Spec) []string { return []string{sp.Root, sp.Other} }
@@ -261,7 +278,7 @@ func (e *env) report(sc Scenario, f Fault, call string, v *Verdict, extra []Prob
 			}
 		}
 		det = longDigitsRe.ReplaceAllString(det, "#")
-		kind := map[string]int{"none": 0, "kill": 1, "error": 2}[f.Kind]
+		kind := map[string]int{"none": 0, "kill": 1, "error": 2, "stop": 3}[f.Kind]
 		e.pmu.Lock()
 		e.pending = append(e.pending, pendingViolation{
 			key:    fmt.Sprintf("%s|%d|%s|%06d", sc.Name(), kind, f.Name, f.K),
@@ -299,7 +316,7 @@ func (e *env) traceScenario(sc Scenario, verbose bool) (*scenarioResult, *RunRes
 		return nil, r
 	}
 	opOK := r.Result == "ok"
-	if !opOK && sc.srvMode() == "" {
+	if !opOK && !sc.mayFail() {
 		c.EngineError("trace run of %s: the operation failed without any fault: %s", sc.Name(), r.Result)
 		return nil, r
 	}
@@ -312,25 +329,26 @@ func (e *env) traceScenario(sc Scenario, verbose bool) (*scenarioResult, *RunRes
 	e.report(sc, Fault{Kind: "none"}, "", v, extra, r)
 	c.Add(0, int64(len(r.Op.Calls)), 1)
 	cls := "complete:" + v.class()
-	if m := sc.srvMode(); m != "" {
-		// the server misbehaves: the operation may fail, the oracle is evaluated after it returned
+	if sc.mayFail() {
+		// the server misbehaves / the archive is damaged: the operation may fail, the oracle is evaluated after it returned
+		family, m := "interrupted-download", sc.srvMode()
+		if m == "" {
+			family, m = "damaged-archive", sc.damage()
+		}
 		if opOK {
 			cls += "/op-ok"
 		} else {
 			cls += "/op-error"
 		}
 		c.Nontrivial(sc.Name() + "|complete")
-		c.Outcome("interrupted-download:" + m + ":" + v.class() + cls[strings.LastIndex(cls, "/"):])
-		if sc.Old == "small" && sc.New == "small" && !sc.has("signed") {
-			c.Sample(map[string]any{"scenario": sc.Name(), "fault": "server " + m, "observed": v.State, "verdict": cls, "result": longDigitsRe.ReplaceAllString(strings.ReplaceAll(r.Result, r.Spec.Root, "$R"), "#")})
+		c.Outcome(family + ":" + m + ":" + v.class() + cls[strings.LastIndex(cls, "/"):])
+		if sc.New == "small" && !sc.has("signed") && (sc.Old == "small" || sc.damage() != "") {
+			c.Sample(map[string]any{"scenario": sc.Name(), "fault": family + " " + m, "observed": v.State, "verdict": cls, "result": longDigitsRe.ReplaceAllString(strings.ReplaceAll(r.Result, r.Spec.Root, "$R"), "#")})
 		}
 	}
 	c.Outcome(cls)
 	sr.classes[v.Dest] = true
-	if !e.wantPoints(sc) {
-		return sr, r
-	}
-
+	sr.beginWhen = r.Op.Before["faccessat"] + 1
 	perName := map[string]int{}
 	for _, call := range r.Op.Calls {
 		perName[call.Name]++
@@ -348,6 +366,9 @@ func (e *env) traceScenario(sc Scenario, verbose bool) (*scenarioResult, *RunRes
 func (e *env) runPoint(fp FaultPoint, verbose bool) string {
 	c := e.c
 	sc := fp.Sc
+	if fp.Fault.Kind == "stop" {
+		return e.runOverlapPoint(fp, verbose)
+	}
 	var lastWhy string
 	for attempt := 0; attempt < 3; attempt++ {
 		r, err := e.runOnce(sc, fp.Fault, fp.When)
@@ -500,12 +521,19 @@ var srvModes = []string{
 // interrupted-download scenarios are decided by their complete run; quick
 // combines only three of them with crash points.
 func (e *env) wantPoints(sc Scenario) bool {
-	m := sc.srvMode()
-	if m == "" || !e.c.Quick() {
+	if !sc.mayFail() || !e.c.Quick() {
 		return true
 	}
-	return sc.Old == "small" && sc.New == "small" && !sc.has("signed") &&
-		(m == "close-cut-half" || m == "cl-cut-half" || m == "chunked-cut-midchunk")
+	if sc.New != "small" || sc.has("signed") {
+		return false
+	}
+	switch sc.srvMode() + sc.damage() {
+	case "close-cut-half", "cl-cut-half", "chunked-cut-midchunk":
+		return sc.Old == "small"
+	case "deflate-cut-half", "stored-cut-half", "gz-cut-half":
+		return true
+	}
+	return false
 }
 
 func buildScenarios(c *vlib.Ctx, haveOther bool) []Scenario {
@@ -596,6 +624,34 @@ func buildScenarios(c *vlib.Ctx, haveOther bool) []Scenario {
 			}
 		}
 	}
+	// damaged archives: intact directory, data of the first entry ends early; truncated gzip
+	for _, n := range []string{"small", "medium"} {
+		for _, kind := range []string{"deflate", "stored"} {
+			for _, cut := range []string{"0", "1", "half", "allbut1"} {
+				add(opUnpackZip, "absent", n, "registry", "dmg="+kind+"-cut-"+cut)
+			}
+		}
+		for _, cut := range []string{"0", "5", "half", "allbut8", "allbut1"} {
+			add(opUnpackFile, "absent", n, "registry", "dmg=gz-cut-"+cut)
+		}
+	}
+	// overlapping writers: writer A is stopped after each of its mutating calls, writer B runs in between
+	for _, ov := range []string{"same", "other"} {
+		for _, n := range []string{"small", "medium"} {
+			for _, o := range []string{"small", "absent"} {
+				if q && o == "absent" && n == "medium" {
+					continue
+				}
+				add(opWriteFile, o, n, "same", "overlap="+ov)
+				add(opCreate, o, n, "same", "overlap="+ov)
+				add(opCreate, o, n, "explicit", "overlap="+ov)
+				add(opPut, o, n, "same", "overlap="+ov)
+				if !q {
+					add(opWriteFile, o, n, "missing", "overlap="+ov)
+				}
+			}
+		}
+	}
 	// updater unpacking
 	for _, n := range []string{"small", big} {
 		add(opUnpackZip, "absent", n, "registry", "")
@@ -614,6 +670,8 @@ func run(c *vlib.Ctx) {
 	c.Assume("'new content' is compared by bytes / link target / directory tree; the mode of a destination that already shows the new content is not asserted (fetchFile sets 0755 after the rename); 'previous state' includes the mode")
 	c.Assume("parent directories of the destination created by the operation (fstree.Put into a new directory, updater storage sub-directory) are not counted as stray files; mode changes of directories are not asserted")
 	c.Assume("a temporary entry is one named .<destination base name><random> directly inside the destination's directory, $TMPDIR or the configured temp dir (or anything below such an entry), or anything below the updater registry's tmp directory")
+	c.Assume("overlapping writers (var overlap=same|other): bound = two writer processes, writer B runs completely between two system calls of writer A; A is stopped by strace (SIGSTOP injected at the call, the stop takes effect when the call has returned) after the begin marker and after each of its file-system-mutating calls in turn, B runs, A is continued; interleavings in which B is itself interrupted by A, or with three writers, are not enumerated; the oracle is evaluated when B finished and when both finished")
+	c.Assume("interrupted downloads (var srv=...) and damaged archives (var dmg=...) are decided after the operation returned: an error with the previous state kept satisfies the property; for a damaged archive the complete new tree cannot exist, so anything published is a fragment")
 	c.Assume("index files written by updater.downloadIndex use os.WriteFile and are not claimed by the property; not exercised")
 
 	if _, err := exec.LookPath("strace"); err != nil {
@@ -698,6 +756,20 @@ func run(c *vlib.Ctx) {
 			continue
 		}
 		c.Scenario(sr.sc.Name())
+		if sr.sc.overlap() != "" {
+			// stop points: after the begin marker (B runs before A's first call) and after every mutating call of A
+			points = append(points, FaultPoint{Sc: sr.sc, Fault: Fault{Kind: "stop", Name: "faccessat", K: 0}, When: sr.beginWhen, Norm: "begin-marker"})
+			owner = append(owner, i)
+			for _, p := range sr.points {
+				p.Fault.Kind = "stop"
+				points = append(points, p)
+				owner = append(owner, i)
+			}
+			continue
+		}
+		if !e.wantPoints(sr.sc) {
+			continue
+		}
 		for _, p := range sr.points {
 			points = append(points, p)
 			owner = append(owner, i)
@@ -735,7 +807,7 @@ func run(c *vlib.Ctx) {
 	// vacuity: a publishing scenario must have shown both the old and the new state
 	vac := 0
 	for _, sr := range results {
-		if sr == nil || len(sr.points) == 0 || sr.sc.srvMode() != "" {
+		if sr == nil || len(sr.points) == 0 || sr.sc.mayFail() || sr.sc.overlap() != "" {
 			continue
 		}
 		old, nw := false, false
@@ -779,6 +851,11 @@ func (e *env) replay() {
 		fmt.Printf("  %s %-90s = %s\n", m, normalise(call, r.Spec), call.Ret)
 	}
 	if w.Fault.Kind == "none" || w.Fault.Kind == "" {
+		return
+	}
+	if w.Fault.Kind == "stop" && w.Fault.K == 0 {
+		fmt.Println("overlap run:")
+		e.runPoint(FaultPoint{Sc: w.Scenario, Fault: w.Fault, When: sr.beginWhen, Norm: "begin-marker"}, true)
 		return
 	}
 	for _, p := range sr.points {
